@@ -36,17 +36,17 @@ func init() {
 		Subs: []*run.Sub{
 			{Name: "probes", N: func(t string) uint64 {
 				if t == "thorough" {
-					return 2_000_000
+					return 20_000_000
 				}
-				return 60_000
+				return 150_000
 			}, Run: c15Gradient,
 				Min: map[string]int64{"gradients": 20000, "probes": 1000000, "exact_integer_offsets": 2000, "exact_odd_integer_reflect": 100, "exact_stop_offsets": 1000, "negative_offsets": 50000, "offsets_above_1": 50000, "offsets_inside_0_1": 200000,
 					"spread_none": 10000, "spread_pad": 10000, "spread_reflect": 10000, "spread_repeat": 10000, "radial": 100000, "linear": 100000, "transparent_outside": 1000, "dyadic_gradients": 5000, "far_offset_gradients": 3000}},
 			{Name: "pixels", N: func(t string) uint64 {
 				if t == "thorough" {
-					return 150_000
+					return 1_000_000
 				}
-				return 4_000
+				return 10_000
 			}, Run: c15Pixels,
 				Rule: "a full-rectangle path filled with a gradient is rasterised by raster/vec into an RGBA image at a non-zero rectangle origin; interior pixels must equal the reference colour at the rectangle-relative pixel centre (8-bit, +-2)",
 				Min:  map[string]int64{"pixel_checks": 50000}},
